@@ -421,6 +421,7 @@ func (p *sparser) primary() Expr {
 // ---- contract files ----
 
 type Clause struct {
+	Aux   bool // auxiliary-variable bookkeeping attached to an interface method: assumed at call sites, no obligation of implementations
 	Label string
 	Text  string
 	E     Expr
@@ -587,7 +588,11 @@ func (db *SpecDB) ParseSpecTextIn(lines []string, srcs []string, pkg string) err
 			}
 			db.Contracts[key] = cur
 			curLoop, curLemma = nil, nil
-		case "requires", "ensures", "modifies":
+		case "requires", "ensures", "modifies", "aux-ensures":
+			aux := word == "aux-ensures"
+			if aux {
+				word = "ensures"
+			}
 			if cur == nil {
 				return fmt.Errorf("%s: %s outside a contract", l.src, word)
 			}
@@ -615,6 +620,10 @@ func (db *SpecDB) ParseSpecTextIn(lines []string, srcs []string, pkg string) err
 			if word == "requires" {
 				cur.Requires = append(cur.Requires, c)
 			} else {
+				c.Aux = aux
+				if aux && cur.Kind == "func" {
+					return fmt.Errorf("%s: aux-ensures is for interface and extern contracts", l.src)
+				}
 				cur.Ensures = append(cur.Ensures, c)
 			}
 		case "panics-unless":
